@@ -508,7 +508,26 @@ def run(rep, pdb, tier):
                             arms_ok = ctx.term(some[0]["body"]) == lin_add(("var", ps_[0]["v"]), num(1)) and ctx.term(none[0]["body"]) == num(1)
                     others = [n for n in walk(fn["body"]) if n.get("k") == "MethodCall" and n.get("name") in ("pop", "clear", "remove", "drain", "push", "resize") and ctx.term(n["recv"]) == CO0]
                     oks = from_coeffs and pred_ok and arms_ok and not others
-            rep.add("trim", rule, oks, fn["body"], "search form (rposition of the highest non-zero coefficient, truncate to it, at least one kept)", where=loc(fn["body"]))
+            form = "search form (rposition of the highest non-zero coefficient, truncate to it, at least one kept)"
+            fl = [n for n in walk(fn["body"]) if n.get("k") == "For"]
+            if not tr and len(fl) == 1:
+                # the count-down form: `for i in (1..len).rev() { if coeffs[i] != zero { break; } coeffs.pop(); }` - i is the last index while the pops keep step,
+                # and index 0 is never reached
+                form = "count-down form (i from len-1 down to 1, stop at the first non-zero coefficient, one pop per pass)"
+                lp_ = fl[0]
+                r_ = raw_for_range(ctx, lp_)          # (the loop has a `break`: not a total range loop)
+                sts_ = lp_["body"].get("stmts", []) if lp_["body"].get("k") == "Block" else []
+                if r_ is not None and len(sts_) == 2 and lp_["body"].get("expr") is None:
+                    g_, p_ = strip(sts_[0].get("e") or {}), strip(sts_[1].get("e") or {})
+                    rng_ok = r_[1] == num(1) and r_[2] == LEN(CO0) and not r_[3] and r_[4]
+                    brk = g_.get("k") == "If" and g_.get("else") is None and [x.get("k") for x in walk(g_["then"]) if x.get("k") in ("Break", "Ret", "Continue")] == ["Break"]
+                    ats = cond_atoms(ctx, g_["cond"], True) if brk else []
+                    cell = ("idx", CO0, r_[0])
+                    nz = len(ats) == 1 and ats[0][0] == "cmp" and ats[0][1] == "!=" and ((ats[0][2] == cell and is_zero_term(ats[0][3])) or (ats[0][3] == cell and is_zero_term(ats[0][2])))
+                    pop = p_.get("k") == "MethodCall" and p_.get("name") == "pop" and ctx.term(p_["recv"]) == CO0
+                    others = [n for n in walk(fn["body"]) if n.get("k") == "MethodCall" and n.get("name") in ("pop", "clear", "remove", "drain", "push", "resize", "truncate") and ctx.term(n["recv"]) == CO0]
+                    oks = rng_ok and brk and nz and pop and len(others) == 1
+            rep.add("trim", rule, oks, fn["body"], form, where=loc(fn["body"]))
             ok = None
         if ok:
             w = wl[0]
